@@ -78,14 +78,41 @@ class Run:
             return False
         return True
 
-    def source_scan(self):
-        """No Admitted/admit/Axiom/Parameter/... anywhere in the development (comments stripped)."""
+    def closure(self, targets):
+        """.v files in the dependency closure of the given .vo targets (from coq_makefile's .Makefile.d)"""
+        deps = {}
+        try:
+            for line in open(os.path.join(COQ, ".Makefile.d")):
+                if ":" not in line:
+                    continue
+                lhs, rhs = line.split(":", 1)
+                for t in lhs.split():
+                    if t.endswith(".vo"):
+                        deps[t] = [x for x in rhs.split() if x.endswith(".vo")]
+        except OSError:
+            return None
+        seen, todo = set(), [t for t in targets]
+        while todo:
+            t = todo.pop()
+            if t in seen:
+                continue
+            seen.add(t)
+            todo += deps.get(t, [])
+        return {os.path.join(COQ, t[:-1]) for t in seen}
+
+    def source_scan(self, targets=None):
+        """No Admitted/admit/Axiom/Parameter/... in the development this property depends on (the dependency closure
+        of its theorem files plus the extraction file; comments stripped). The whole tree is scanned when the closure
+        cannot be computed; `./check ALL` style global scans are done by tools/scan_all.py."""
         bad = []
+        only = self.closure(targets) if targets else None
         for root, _, files in os.walk(os.path.join(COQ)):
             for f in files:
                 if not f.endswith(".v"):
                     continue
                 p = os.path.join(root, f)
+                if only is not None and p not in only and not root.endswith("extraction"):
+                    continue
                 txt = open(p).read()
                 txt = strip_comments(txt)
                 txt = re.sub(r'"[^"]*"', '""', txt)
@@ -361,7 +388,7 @@ def execute(mod, tier, seed, replay=None, repo="/repo"):
     if hasattr(mod, "pregen"):
         mod.pregen(run)          # property-specific regeneration from the source (before make)
     coq_ok = run.coq_make(mod.COQ_TARGETS)
-    run.source_scan()
+    run.source_scan(mod.COQ_TARGETS)
     if coq_ok:
         run.audit(mod.THEOREMS, mod.REQUIRES)
         if tier == "thorough" and getattr(mod, "COQCHK", None):
